@@ -787,8 +787,11 @@ def _unhashable_fields_normalised(ctx, model, nodes):
                         if pol and isinstance(v, tuple) and v and v[0] == "call" \
                                 and v[1] == "isinstance" and v[2][0] == FV:
                             names = str(v[2][1])
-                            if any(c in names for c in IMMUTABLE_CTORS | {
-                                    "Hashable"}) and "dict'" not in names.replace(
+                            # (not collections.abc.Hashable: it asks
+                            # whether the class *defines* __hash__, which a
+                            # mappingproxy or a tuple holding a list does)
+                            if any(c in names for c in IMMUTABLE_CTORS) and \
+                                    "dict'" not in names.replace(
                                         "immutabledict", ""):
                                 okp = True
                 if not okp:
